@@ -38,21 +38,23 @@ type c07Pred struct {
 	Z    int64    `json:"z,omitempty"`
 }
 type c07In struct {
-	Kind     string    `json:"kind"` // counter, subkey, table, trim, accum, num, perm
-	Hist     []string  `json:"history_hex,omitempty"`
-	Hist2    []string  `json:"history2_hex,omitempty"` // perm: the permuted history
-	Delim    int       `json:"delim,omitempty"`        // table: a single delimiter byte (older replay files)
-	DelimHex string    `json:"delim_hex,omitempty"`    // table: the delimiter (any length); overrides Delim
-	Pred     *c07Pred  `json:"pred,omitempty"`         // trim: samples Hist, Trim(Pred), samples Hist2, optional Trim(Pred2)
-	Pred2    *c07Pred  `json:"pred2,omitempty"`
-	PermOf   string    `json:"perm_of,omitempty"`
-	Groups   []c07Expr `json:"groups,omitempty"`
-	Cols     []c07Col  `json:"cols,omitempty"`
-	Keep     bool      `json:"keep,omitempty"`
-	Reverse  bool      `json:"reverse,omitempty"`
-	Ps       []float64 `json:"ps,omitempty"`
-	Samples  []string  `json:"samples,omitempty"` // num: the sample strings
-	Family   string    `json:"family,omitempty"`  // num: generator family (tag only)
+	Kind          string    `json:"kind"` // counter, subkey, table, trim, accum, num, perm
+	Hist          []string  `json:"history_hex,omitempty"`
+	Hist2         []string  `json:"history2_hex,omitempty"` // perm: the permuted history
+	Delim         int       `json:"delim,omitempty"`        // table: a single delimiter byte (older replay files)
+	DelimHex      string    `json:"delim_hex,omitempty"`    // table: the delimiter (any length); overrides Delim
+	Pred          *c07Pred  `json:"pred,omitempty"`         // trim: samples Hist, Trim(Pred), samples Hist2, optional Trim(Pred2)
+	Pred2         *c07Pred  `json:"pred2,omitempty"`
+	PermOf        string    `json:"perm_of,omitempty"`
+	Groups        []c07Expr `json:"groups,omitempty"`
+	Cols          []c07Col  `json:"cols,omitempty"`
+	Sort          *c07Expr  `json:"sort,omitempty"`            // accum: SetSort expression (Groups() evaluates it; the order itself is C13's)
+	GroupNamesCol bool      `json:"group_names_col,omitempty"` // accum: a group expression names a data column (tag only)
+	Keep          bool      `json:"keep,omitempty"`
+	Reverse       bool      `json:"reverse,omitempty"`
+	Ps            []float64 `json:"ps,omitempty"`
+	Samples       []string  `json:"samples,omitempty"` // num: the sample strings
+	Family        string    `json:"family,omitempty"`  // num: generator family (tag only)
 }
 
 func unhexs(xs []string) []string {
@@ -511,6 +513,15 @@ func c07Case(in c07In) Case {
 			prefix = fmt.Sprintf("kAccum %s (adf %s %s) %s", HS(stdlib.ErrorNum), CoqList(gs), CoqList(cs), HLS(hist))
 			tags = append(tags, fmt.Sprintf("groups=%d", len(in.Groups)), fmt.Sprintf("cols=%d", len(in.Cols)))
 			nontrivial = len(in.Cols) >= 2 && len(hist) >= 3
+			if in.Sort != nil {
+				if err := a.SetSort(in.Sort.tmpl(true)); err != nil {
+					panic(fmt.Sprintf("harness: sort expression %q does not compile: %v", in.Sort.tmpl(true), err))
+				}
+				tags = append(tags, "sort-expr")
+			}
+			if in.GroupNamesCol {
+				tags = append(tags, "group-expr-names-data-column")
+			}
 			outs = append(outs, obsAccum(a))
 			for _, s := range hist {
 				a.Sample(s)
@@ -821,8 +832,10 @@ func c07GenAccum(r *Rng) c07In {
 	}
 	var in c07In
 	in.Kind = "accum"
-	for i := 0; i < r.Intn(3); i++ {
-		switch r.Intn(5) {
+	ng := r.Intn(3)
+	col := func() string { return names[r.Intn(ncols)] } // the name of a data column that exists
+	for i := 0; i < ng; i++ {
+		switch r.Intn(11) {
 		case 0:
 			in.Groups = append(in.Groups, *lit("g"))
 		case 1:
@@ -831,9 +844,27 @@ func c07GenAccum(r *Rng) c07In {
 			in.Groups = append(in.Groups, *mat(0))
 		case 3:
 			in.Groups = append(in.Groups, *key("."))
+		case 4:
+			in.Groups = append(in.Groups, *key(col())) // a named key equal to a data column: "" while the group key is built
+			in.GroupNamesCol = true
+		case 5:
+			in.Groups = append(in.Groups, *cat(mat(0), cat(lit(":"), key(col()))))
+			in.GroupNamesCol = true
+		case 6:
+			in.Groups = append(in.Groups, *cat(mat(1), cat(key(col()), key("."))))
+			in.GroupNamesCol = true
+		case 7:
+			in.Groups = append(in.Groups, *key("nosuch"))
+		case 8:
+			in.Groups = append(in.Groups, *sumi(key(col()), lit("1"))) // "" is not an int: the error marker
+			in.GroupNamesCol = true
 		default:
 			in.Groups = append(in.Groups, *mat(r.Range(1, 2)))
 		}
+	}
+	if r.Chance(1, 3) {
+		// a sort expression (used by Groups): mentions data columns, {.}, match fields, unknown names
+		in.Sort = Pick(r, []*c07Expr{mat(0), key("."), key(col()), key("nosuch"), sumi(key(col()), lit("1")), cat(key(col()), mat(1))})
 	}
 	for i := 0; i < ncols; i++ {
 		var e *c07Expr
@@ -1056,7 +1087,17 @@ func c07Gen(r *Rng, n int, tier string) []Case {
 			}
 			cases = append(cases, c07Case(in))
 		case x < 74:
-			cases = append(cases, c07Case(c07GenAccum(r)))
+			in := c07GenAccum(r)
+			cases = append(cases, c07Case(in))
+			if len(in.Hist) >= 2 && r.Chance(1, 2) {
+				// the same definition over a permutation of the history (the set of groups must not change:
+				// C07_accumulator_groups_perm; every prefix is again compared with the fold)
+				tw := in
+				tw.Hist = hexs(shuffle(r, unhexs(in.Hist)))
+				c := c07Case(tw)
+				c.Tags = append(c.Tags, "accum-permuted-twin")
+				cases = append(cases, c)
+			}
 		case x < 88:
 			cases = append(cases, c07Case(c07GenNum(r, x >= 85)))
 		default:
@@ -1080,7 +1121,7 @@ func main() {
 			"then seeded random cases of 7 kinds: counter / sub-key counter / table histories (length 0..60; keys and sub-keys from alphabets of size 1..4 in four styles incl. shared prefixes and bytes >= 0x80, empty, long random strings; " +
 			"increments absent / small / negative / 0 / +5 / ' 5' / non-numeric / empty / +-2^62 / int64 bounds and just beyond; extra fields; table delimiter NUL, another single byte, or a multi-byte delimiter ('::', '->', ', ', 'ab', 'aa', 'aab', ':::', NUL NUL) with keys that contain proper prefixes of the delimiter (its first byte alone, all but its last byte) at the start, middle and end of a field), every public accessor read after every prefix; " +
 			"trim (table history, Trim by column set / row set / value threshold / column-and-value, then 0..12 further samples that re-create trimmed cells, optionally a second Trim; every accessor before the first Trim and after every later call, Value/ColTotal probed at every column of the whole history, checked against the table determined by the cells alone), " +
-			"accumulating group (0..2 group expressions, 1..3 data expressions from {.}, {n}, {name}, literals, concatenation, sumi; histories of NUL-joined fields), numerical (integers with ties, dyadic fractions, decimals; half of the cases with a magnitude that dwarfs the spread: offsets 1e6/1e9/4e9/1e12/1.7e12/1e15 (also negative) plus small integers or fractions, epoch-millisecond timestamps, one huge value among small ones, constant sequences at a huge value; Variance/StdDev^2 compared with the exact rational sample variance within the relative bound 1e-9 + 8*n*2^-53*kappa that Welford's update meets; " +
+			"accumulating group (0..2 group expressions incl. ones that name an existing data column, {.}, unknown names and sumi over a named key; 1..3 data expressions from {.}, {n}, {name}, literals, concatenation, sumi; optionally a sort expression of the same forms; histories of 0..18 NUL-joined fields; half of them again over a shuffled history), numerical (integers with ties, dyadic fractions, decimals; half of the cases with a magnitude that dwarfs the spread: offsets 1e6/1e9/4e9/1e12/1.7e12/1e15 (also negative) plus small integers or fractions, epoch-millisecond timestamps, one huge value among small ones, constant sequences at a huge value; Variance/StdDev^2 compared with the exact rational sample variance within the relative bound 1e-9 + 8*n*2^-53*kappa that Welford's update meets; " +
 			"parse errors; keep-values on/off; reverse; quantiles p whose index computation is exact in float64, some p<0 and p>=1), and permutation pairs (a history and a shuffle of it). " +
 			"distinct = distinct input; non-trivial = counter: a repeated key with an explicit increment or parse error; sub-key: a new sub-key sorting before existing ones while rows exist (re-index); table/trim: >=2 rows and >=2 columns with absent cells or negative values; accum: >=2 columns and >=3 samples; num: >=3 parsed samples; perm: >=3 samples.",
 		Gen: c07Gen,
